@@ -424,8 +424,11 @@ pub struct Expect {
     pub must_err: Option<String>,
     /// upper bound of visits (unfolded size); None if not known
     pub visits_ub: Option<u64>,
-    /// signature stem for the budget violation (family identity)
+    /// signature stem (input identity)
     pub family: String,
+    /// identity used for an over-budget traversal of an input the harness has no model of (byte-patched tables):
+    /// the class of input rather than the individual mutant
+    pub budget_family: Option<String>,
 }
 
 /// Apply the generic oracles (+ model expectations) to one outcome.
@@ -478,7 +481,7 @@ pub fn judge(ctx: &mut Ctx, o: &Outcome, font: &[u8], gid: u32, coords: &[i16], 
     if o.aborted || o.visits > VISIT_BUDGET {
         ctx.count("over_budget", 1);
         ctx.violation(
-            &format!("unbounded-traversal:{}", fam),
+            &format!("unbounded-traversal:{}", exp.budget_family.as_ref().unwrap_or(&fam)),
             detail(json!({"budget_visits": VISIT_BUDGET, "aborted_by_painter": o.aborted, "unfolded_size_bound": exp.visits_ub})),
             Some(font),
         );
@@ -625,7 +628,7 @@ fn run_model_case(ctx: &mut Ctx, family: &str, idx: u64, m: &Model, rng: &mut Rn
                     let policy = policies[(gid as usize) % policies.len()];
                     let coords: Vec<i16> = (0..m.axes).map(|_| rng.range(-16384, 16384) as i16).collect();
                     if let Some(o) = paint_one(ctx, &b, gid, &coords, policy, Want::Any, &what) {
-                        let exp = Expect { family: format!("{}:gid={}", what, gid), ..Default::default() };
+                        let exp = Expect { family: format!("{}:gid={}", what, gid), budget_family: Some(format!("patched:gen:{}", family)), ..Default::default() };
                         judge(ctx, &o, &b, gid, &coords, policy, &what, &exp);
                     }
                 }
@@ -655,7 +658,7 @@ fn fanout_families(ctx: &mut Ctx) {
             let what = format!("gen:{}:n={}", key, n);
             if let Some(o) = paint_one(ctx, &font, 0, &[], policy, Want::V1, &what) {
                 let an = m.analyze(0, true);
-                let exp = Expect { family: key.to_string(), visits_ub: an.filter(|a| !a.cut && !a.cyclic).map(|a| a.unfolded), must_err: None };
+                let exp = Expect { family: key.to_string(), visits_ub: an.filter(|a| !a.cut && !a.cyclic).map(|a| a.unfolded), must_err: None, budget_family: None };
                 judge(ctx, &o, &font, 0, &[], policy, &what, &exp);
                 curve.push(json!({"n": n, "colr_table_bytes": table_len, "visits": o.visits, "callbacks": o.callbacks, "result": if o.ok {"Ok"} else {"Err"}}));
             }
@@ -670,7 +673,7 @@ fn fanout_families(ctx: &mut Ctx) {
             let policy = Policy::all(0)[0];
             let what = format!("gen:{}:n={}", key, n);
             if let Some(o) = paint_one(ctx, &font, 0, &[], policy, Want::V1, &what) {
-                let exp = Expect { family: key.to_string(), visits_ub: None, must_err: None };
+                let exp = Expect { family: key.to_string(), visits_ub: None, must_err: None, budget_family: None };
                 judge(ctx, &o, &font, 0, &[], policy, &what, &exp);
                 ctx.count(if o.aborted { "fanout_probe_aborted_by_painter" } else if o.ok { "fanout_probe_completed_ok" } else { "fanout_probe_returned_err" }, 1);
             }
@@ -806,7 +809,7 @@ fn mutant_pass(ctx: &mut Ctx, fonts: &[vf_core::CorpusFont], item0: &mut usize, 
                 let coords: Vec<i16> = if t % 2 == 0 { vec![] } else { (0..axes).map(|_| rng.range(-16384, 16384) as i16).collect() };
                 let policy = Policy::all(rng.u64())[t % 5];
                 if let Some(o) = paint_one(ctx, &buf, gid, &coords, policy, Want::Any, &what) {
-                    let exp = Expect { family: format!("{}:gid={}", what, gid), ..Default::default() };
+                    let exp = Expect { family: format!("{}:gid={}", what, gid), budget_family: Some(format!("mutant:{}", f.name)), ..Default::default() };
                     judge(ctx, &o, &buf, gid, &coords, policy, &what, &exp);
                 }
             }
